@@ -16,7 +16,10 @@ def ligature_lookups(font):
     used = set()
     if gsub.FeatureList is not None:
         for fr in gsub.FeatureList.FeatureRecord:
-            used.update(fr.Feature.LookupListIndex)
+            # the features through which a sequence reaches its glyph (nanoemoji writes ccmp); other features of a
+            # third-party input font (kerning-like contextual substitutions, ...) do not take part in that
+            if fr.FeatureTag in ("ccmp", "rlig", "liga"):
+                used.update(fr.Feature.LookupListIndex)
     out = []
     for i, lk in enumerate(gsub.LookupList.Lookup):
         if i not in used:
